@@ -128,16 +128,18 @@ func c09Lease(c *Ctx, p pingPool) {
 	c.Check("C09.R1", fk+":admission-before-lease", lease.Pos(), late == nil, "the breaker is consulted before a client is leased", "the circuit breaker is consulted after the client was leased: a refusal would strand the client")
 }
 
-func c09Flags(c *Ctx, p pingPool) {
+func c09Flags(c *Ctx, p pingPool) { c09FlagsRule(c, p, "C09.R2") }
+
+func c09FlagsRule(c *Ctx, p pingPool, rule string) {
 	ct := c.Named(p.pkg, p.clientType)
 	if ct == nil {
-		c.Unresolved("C09.R2", p.clientType)
+		c.Unresolved(rule, p.clientType)
 		return
 	}
 	pt := types.NewPointer(ct)
 	od := unwrapPromoted(c.methodOf(pt, "OnDestroyStream"))
 	if od == nil {
-		c.Unresolved("C09.R2", p.clientType+".OnDestroyStream")
+		c.Unresolved(rule, p.clientType+".OnDestroyStream")
 		return
 	}
 	flags := map[string]token.Pos{}
@@ -145,7 +147,7 @@ func c09Flags(c *Ctx, p pingPool) {
 	for _, m := range []string{"OnResetStream", "OnGoAway"} {
 		f := unwrapPromoted(c.methodOf(pt, m))
 		if f == nil {
-			c.Unresolved("C09.R2", p.clientType+"."+m)
+			c.Unresolved(rule, p.clientType+"."+m)
 			continue
 		}
 		forEachInstr(f, false, func(_ *ssa.Function, in ssa.Instruction) {
@@ -162,10 +164,10 @@ func c09Flags(c *Ctx, p pingPool) {
 		})
 	}
 	for _, m := range []string{"OnResetStream", "OnGoAway"} {
-		c.Check("C09.R2", p.pkg+"."+p.clientType+":marks-in-"+m, ct.Obj().Pos(), perMethod[m] > 0, m+" records a close-me flag", fmt.Sprintf("%s.%s records no close-me flag: a connection whose exchange was abandoned (or that received go-away) is reused", p.clientType, m))
+		c.Check(rule, p.pkg+"."+p.clientType+":marks-in-"+m, ct.Obj().Pos(), perMethod[m] > 0, m+" records a close-me flag", fmt.Sprintf("%s.%s records no close-me flag: a connection whose exchange was abandoned (or that received go-away) is reused", p.clientType, m))
 	}
 	if len(flags) == 0 {
-		c.Fail("C09.R2", p.pkg+"."+p.clientType+":flags", ct.Obj().Pos(), "the pool client records nothing on reset/go-away: a connection with an abandoned exchange would be reused")
+		c.Fail(rule, p.pkg+"."+p.clientType+":flags", ct.Obj().Pos(), "the pool client records nothing on reset/go-away: a connection with an abandoned exchange would be reused")
 		return
 	}
 	for fld, pos := range flags {
@@ -182,11 +184,11 @@ func c09Flags(c *Ctx, p pingPool) {
 			})
 		}
 		if !readAnywhere {
-			c.Fail("C09.R2", key, pos, fmt.Sprintf("%s.%s is set on reset/go-away but never read: the connection is returned to the idle list and reused although its exchange did not complete cleanly", p.clientType, fld))
+			c.Fail(rule, key, pos, fmt.Sprintf("%s.%s is set on reset/go-away but never read: the connection is returned to the idle list and reused although its exchange did not complete cleanly", p.clientType, fld))
 			continue
 		}
 		if fld == "closeWithActiveReq" {
-			c.Pass("C09.R2", key, pos, "statistics-only flag (read by the close-event handler)")
+			c.Pass(rule, key, pos, "statistics-only flag (read by the close-event handler)")
 			continue
 		}
 		// in OnDestroyStream: a test of the flag whose true edge reaches Close before any re-pool call
@@ -241,7 +243,7 @@ func c09Flags(c *Ctx, p pingPool) {
 				okFlag = true
 			}
 		}
-		c.Check("C09.R2", key, pos, okFlag, "OnDestroyStream tests "+fld+" and closes the connection before anything can re-pool it", fmt.Sprintf("OnDestroyStream does not turn %s.%s into a Close before the client can go back to the idle list", p.clientType, fld))
+		c.Check(rule, key, pos, okFlag, "OnDestroyStream tests "+fld+" and closes the connection before anything can re-pool it", fmt.Sprintf("OnDestroyStream does not turn %s.%s into a Close before the client can go back to the idle list", p.clientType, fld))
 	}
 }
 
